@@ -1,7 +1,7 @@
 #!/usr/bin/env python3
 """debug helper: run corpus behaviours whose name starts with argv[1] against the real server and validate"""
 import sys, json, os
-sys.path.insert(0, '/verif/lib'); sys.path.insert(0, '/verif/checks')
+import os as _o; _r = _o.path.dirname(_o.path.dirname(_o.path.abspath(__file__))); sys.path.insert(0, _r + '/lib'); sys.path.insert(0, _r + '/checks')
 import common as C, sig
 w = C.scratch('dbg-')
 behs = [b for b in sig.corpus() if b['name'].startswith(sys.argv[1])]
